@@ -6,7 +6,48 @@ package main
 // query is an unsat answer for the exact one (over-approximation); a sat answer is not trusted
 // and is re-checked exactly.
 
-import "fmt"
+import (
+	"fmt"
+	"math/big"
+)
+
+// opRange returns the value range of a narrow operand as big integers.
+func opRange(t *Term) (lo, hi *big.Int) {
+	one := big.NewInt(1)
+	switch t.op {
+	case OConst:
+		v := big.NewInt(signExt(t.k, t.w))
+		return v, v
+	case OZExt:
+		hi = new(big.Int).Lsh(one, uint(t.a[0].w))
+		hi.Sub(hi, one)
+		return big.NewInt(0), hi
+	case OSExt:
+		hi = new(big.Int).Lsh(one, uint(t.a[0].w)-1)
+		lo = new(big.Int).Neg(hi)
+		hi = new(big.Int).Sub(hi, one)
+		return lo, hi
+	}
+	panic("opRange of non-narrow operand")
+}
+
+func prodRange(a, b *Term) (int64, int64) {
+	al, ah := opRange(a)
+	bl, bh := opRange(b)
+	var lo, hi *big.Int
+	for _, x := range []*big.Int{al, ah} {
+		for _, y := range []*big.Int{bl, bh} {
+			p := new(big.Int).Mul(x, y)
+			if lo == nil || p.Cmp(lo) < 0 {
+				lo = p
+			}
+			if hi == nil || p.Cmp(hi) > 0 {
+				hi = p
+			}
+		}
+	}
+	return lo.Int64(), hi.Int64()
+}
 
 func rebuild(t *Term, a []*Term) *Term {
 	switch t.op {
@@ -148,8 +189,10 @@ func (ma *mulAbs) axioms() []*Term {
 			Implies(And(aNeg, bNeg), Slt(z, m)),
 			Implies(Eq(a, one), Eq(m, b)),
 			Implies(Eq(b, one), Eq(m, a)),
-			// |m| < 2^64 trivially; narrow operands give |m| <= 2^62ish: m within (-2^63, 2^63)
 		)
+		// exact range of the product from the operand widths (keeps sums with addresses from wrapping)
+		lo, hi := prodRange(a, b)
+		ax = append(ax, Sle(BV(uint64(lo), 64), m), Sle(m, BV(uint64(hi), 64)))
 	}
 	// pairwise monotonicity for products sharing an operand
 	for i := 0; i < len(ma.prods); i++ {
